@@ -12,6 +12,10 @@ Inductive c01_case :=
 (* HTTP/2 body framing: the (size, EOF-with-data) schedule of the body reads and the DATA frames
    (length, END_STREAM) the peer received; the observed lengths are the allowances *)
 | H2BodyCase (reads : list (nat * bool)) (frames : list (nat * bool))
+(* Expect: 100-continue: the peer's answer to the head; did the whole body arrive, was the connection reused *)
+| ExpectCase (ans : continue_answer) (body_arrived reused : bool)
+(* everything an origin read off one connection, and the requests (method, target, body) it made of it *)
+| SeqCase (raw : bytes) (views : list (bytes * (bytes * bytes)))
 with req_obs :=
 | OErr                                                      (* the call failed *)
 | OH1 (head : bytes) (chunked body_same no_extra : bool)    (* raw head; body compared by the harness *)
@@ -73,6 +77,17 @@ Definition c01_check (c : c01_case) : bool :=
       | _, _ => false
       end
   | ReqCase proto a obs => req_check proto a obs
+  | ExpectCase ans arrived reused =>
+      Bool.eqb (expect_sends_body false ans) arrived &&
+      (negb reused || conn_reusable_after false ans)
+  | SeqCase raw views =>
+      match observe_seq (length views) raw with
+      | Some (vs, rest) =>
+          bytes_eqb rest [] &&
+          list_eqb (fun v o => bytes_eqb (v_method v) (fst o) && bytes_eqb (v_target v) (fst (snd o)) &&
+                               bytes_eqb (v_body v) (snd (snd o))) vs views
+      | None => false
+      end
   | H2BodyCase reads frames =>
       let rs := map (fun r => (repeat x00 (fst r), snd r)) reads in
       let fs := h2_body_frames rs (map fst frames) in
